@@ -199,8 +199,7 @@ theorem prioSeed_known :
   | exact Or.inl (fun _ _ => rfl)
   | refine Or.inr (fun nx id => ?_)
     unfold Generated.C06Facts.prioSeed Conn.prioSeedFixed
-    simp only [wrapU32]
-    split <;> simp_all
+    simp only [decide_eq_true_eq]
 
 theorem awaitTake_eq (a maxBytes maxFrameSize : Int)
     (ha : In32 a) (hb : 0 ≤ maxBytes) (hb' : maxBytes < 4611686018427387904)
